@@ -5,7 +5,7 @@ EXTENDS MC_AppImage, Json
 ASSUME PrintT("F " \o ToJson(Forms))     \* once: what the form indices in the plans stand for
 EmitB == /\ ImageTerminal => PrintT("B " \o ToJson([kind |-> "layout", areas |-> SetToSeq(img),
                                                       file |-> file, size |-> size,
-                                                      ulen |-> UnitLens[size]]))
+                                                      ulen |-> UnitLens[size], scale |-> scale]))
          /\ SignTerminal  => PrintT("B " \o ToJson([kind |-> "session", plan |-> plan,
                                                       contents |-> Contents, size |-> size,
                                                       ulen |-> UnitLens[size], dirs |-> setup.dirs]))
